@@ -16,7 +16,9 @@ and of the `MessageBody::byte_len` implementations incl. `#[derive(MessageBody)]
 -/
 namespace MB
 
-/-- a Rust type (what `TypeId::of::<T>()` identifies) -/
+/-- a Rust type as identified by `TypeId::of::<T>()`.  `name` is the key of the type in the harness family,
+    NOT `std::any::type_name::<T>()`: distinct types may print the same path (the family has three such
+    types) and must still be different `Ty`s. -/
 structure Ty where
   name : String
 deriving DecidableEq, Repr
